@@ -395,6 +395,13 @@ class Sim(object):
             except BaseException as e:       # noqa - task died with an exception: recorded, oracles decide
                 t.exc = e
                 t.exc_tb = traceback.format_exc()
+                # like threading's excepthook: report, then let go of the frames (they keep sockets etc. alive)
+                x = e
+                for _ in range(20):
+                    if x is None:
+                        break
+                    x.__traceback__ = None
+                    x = x.__context__
                 if not self.killing:
                     self.task_errors.append((t.name, type(e).__name__, str(e)[:200]))
                     self.ev("task-exc", t.id, type(e).__name__)
